@@ -94,6 +94,9 @@ CLAIMED['C06'] = ("for 880 statement texts (22 templates x tables sh/lk/gl/un x 
 CLAIMED['C04'] = ("for 16 statements over one or two global tables (INSERT / REPLACE / UPDATE / DELETE / SELECT incl. a locking read, joins, aliases, schema-qualified names) in four global-table layouts (explicit database ranges or lists, implicit database with one or two location entries per slice) the plan built by the real parser + BuildPlan sends a write exactly once to every physical copy (slice, database), a read to exactly one copy, never to anything that is not a copy, and rewrites a schema-qualified name to the copy's database",
     "statements and layouts are enumerated by the engine as path decisions (no symbolic data, no SMT query: the subject is the statement/rule structure); the random choice of the copy for reads is whatever math/rand yields in the run (every value is one copy); execution and result merging are not covered; joins of a global with a sharded table belong to C01/C02")
 
+CLAIMED['C39'] = ("the real DirectConnection.readResult on a scripted backend stream: a text result of n = 0..4 rows (symbolic digits / NULLs) under a row limit of 0 (unlimited) or 1..3 is delivered in full with unchanged values when n <= limit and is an error when n > limit, leaving the connection drained or marked broken; with the 16 MiB - 1 streaming threshold scaled down to 40 bytes inside the proxy's code (engine-only abstraction), a result of 0..6 rows that crosses the threshold is delivered row by row, in order, exactly once, in RowDatas and in Values, over readResult and the continuation reads",
+    "unsharded single-connection path only: executeShardSQLInSlice / ExecuteSQLs merging and ClientConn.writeOKResultStream are not covered; the scaled-threshold harness cannot be replayed natively (the real constant is 16 MiB) and assumes the code is parametric in the constant; row sizes of megabytes are outside the bound")
+
 NA_REASON = "check not built yet (work in progress; see DESIGN.md section 3 for the planned harness)"
 NA = {}
 
